@@ -15,7 +15,7 @@ func init() {
 		ID:    "C16",
 		Level: "exploration",
 		Rule: "cases: the 212 manifest directories shipped with the repository with a focus name drawn from their own peers, then generated worlds (NetworkPolicy / ANP / Ingress+Route families, some with one name shared by workloads of two namespaces) and a focus name W drawn from: a present name, its namespace/name form, a shared name, an absent name, a namespace name, a prefix of a name, a wrong-namespace form, 'ingress-controller' with and without ingress resources; " +
-			"the library is run with and without WithFocusWorkload(W) and the focused entries must equal exactly the unfocused entries whose source or destination is a workload whose name or namespace/name equals W (or whose source is the ingress controller when W is ingress-controller), with identical connections; when nothing matches: empty result, nil error, a non-fatal warning in Errors(); " +
+			"the library is run with and without WithFocusWorkload(W) and the focused entries must equal exactly the unfocused entries whose source or destination is a workload whose name or namespace/name equals W (or whose source is the ingress controller when W is ingress-controller), with identical connections; when nothing matches: empty result, nil error, a non-fatal warning in Errors(); for a third of the cases the focused run is also rendered in all five formats and parsed back (the parsers of C09): each must encode exactly the filtered relation; " +
 			"non-trivial = the filter keeps some but not all entries; distinct = world hash + W",
 		Assumptions:       []string{"the filter is recomputed by the harness from the peers' Name()/Namespace() accessors of the unfocused run"},
 		NumCases:          func(tier string, _ int64) int { return tierN(tier, 1200, 40000) + nFix(tier) },
@@ -23,7 +23,7 @@ func init() {
 		MinNonTrivial:     200,
 		MinEffectiveShare: 0.3,
 		RequiredEvents: map[string]int64{"entries_compared": 5000, "focus_present": 100, "focus_nsname": 100, "focus_shared": 30, "focus_absent": 50,
-			"focus_ingress-controller": 50, "nothing_matches_cases": 100, "ingress_controller_lines_kept": 20},
+			"focus_ingress-controller": 50, "nothing_matches_cases": 100, "ingress_controller_lines_kept": 20, "focused_formats_parsed": 300},
 	})
 }
 
@@ -247,5 +247,52 @@ func c16Judge(r *run.CaseResult, dir, focus, class string, hasIngressObjects boo
 			r.Violate("c16.absent", "c16.absent:"+class+":nowarning", "a warning in Errors() when nothing matches W", "no non-fatal entry in Errors()", "focus="+focus)
 		}
 	}
+	// "x all formats": every format of the focused run must encode exactly the filtered relation (C09's parsers)
+	if len(r.Violations) == 0 && len(full.Entries) < 400 && (len(want)+len(focus))%3 == 0 {
+		for _, f := range []string{"txt", "json", "csv", "md", "dot"} {
+			fr := observe.List(dir, observe.ListOpts{Focus: focus, Format: f})
+			if fr.Panic != "" || fr.HasErr || fr.OutErr != "" {
+				continue
+			}
+			var ts []tuple
+			var err error
+			switch f {
+			case "txt":
+				ts, _, err = parseListTxt(fr.Output)
+			case "json":
+				ts, err = parseListJSON(fr.Output, false)
+			case "csv":
+				ts, err = parseListCSV(fr.Output)
+			case "md":
+				ts, err = parseListMD(fr.Output)
+			default:
+				ts, _, err = parseListDot(fr.Output)
+			}
+			if err != nil {
+				r.Violate("c16.format", "c16.format:"+f+":unparsable", "focused output parses back", err.Error(), "focus="+focus)
+				continue
+			}
+			r.Ev("focused_formats_parsed", 1)
+			gotF := map[[2]string]string{}
+			for _, t := range ts {
+				gotF[[2]string{t.Src, t.Dst}] = t.Conn
+			}
+			bad := ""
+			for k, v := range want {
+				if gotF[k] != v {
+					bad = "missing/changed " + k[0] + " => " + k[1] + " : " + v + " vs " + gotF[k]
+				}
+			}
+			for k, v := range gotF {
+				if _, ok := want[k]; !ok {
+					bad = "extra " + k[0] + " => " + k[1] + " : " + v
+				}
+			}
+			if bad != "" {
+				r.Violate("c16.format", "c16.format:"+f+":differs", "the "+f+" output of the focused run encodes exactly the filtered relation", bad, "focus="+focus)
+			}
+		}
+	}
 	return full, foc, want
 }
+
